@@ -239,10 +239,26 @@ else:
         )
 
 
+def _edges_in(bins, units):
+    # bin edges given as quantities are expressed in the units of the data they
+    # bin: one entry per dimension, or (np.histogram2d) one array for both
+    if hasattr(bins, "units") and np.ndim(bins) == 1 and len(units) == 2:
+        if units[0] == units[1] or units[1] is None:
+            return bins if units[0] is None else _values_in(units[0], bins)
+        return [b if u is None else _values_in(u, b) for u, b in zip(units, (bins, bins))]
+    if isinstance(bins, (list, tuple)) and len(bins) == len(units):
+        return [
+            _values_in(u, b) if u is not None and hasattr(b, "units") else b
+            for u, b in zip(units, bins)
+        ]
+    return bins
+
+
 def _histogram2d(x, y, *, bins=10, range=None, density=None, weights=None, normed=None):
     range = _sanitize_range(
         range, units=[getattr(x, "units", None), getattr(y, "units", None)]
     )
+    bins = _edges_in(bins, [getattr(x, "units", None), getattr(y, "units", None)])
     if NUMPY_VERSION >= Version("1.24"):
         counts, xbins, ybins = np.histogram2d._implementation(
             np.asarray(x),
@@ -302,6 +318,8 @@ def _histogramdd(
     sample, *, bins=10, range=None, density=None, weights=None, normed=None
 ):
     range = _sanitize_range(range, units=[getattr(_, "units", None) for _ in sample])
+    if isinstance(bins, (list, tuple)):
+        bins = _edges_in(bins, [getattr(_, "units", None) for _ in sample])
     if NUMPY_VERSION >= Version("1.24"):
         counts, bins = np.histogramdd._implementation(
             [np.asarray(_) for _ in sample],
@@ -361,9 +379,12 @@ else:
 
 
 @implements(np.histogram_bin_edges)
-def histogram_bin_edges(a, *args, **kwargs):
+def histogram_bin_edges(a, bins=10, range=None, weights=None):
+    # bin edges given as a quantity are expressed in the data's units
+    bins = _values_in(a.units, bins)
     return (
-        np.histogram_bin_edges._implementation(np.asarray(a), *args, **kwargs) * a.units
+        np.histogram_bin_edges._implementation(np.asarray(a), bins, range, weights)
+        * a.units
     )
 
 
